@@ -22,7 +22,10 @@ RULE = ("model trees of depth <= 5 assembled with the public model constructors:
         "key of builtins._hy_macros, ordinary calls, method-call heads (. None ...), hy.R heads, all atom and "
         "sequence kinds incl. odd Dict, FComponent anywhere / odd conversion, empty Expression, bare unpacking "
         "forms; (b) valid templates of every core macro with one to three arguments deleted / duplicated / "
-        "swapped / retyped / inserted, templates nested into each other; (c) the templates themselves. "
+        "swapped / retyped / inserted / respelled with compatibility characters, templates nested into each other; "
+        "(c) the templates themselves; (d) a regression corpus: the input class behind every repaired mechanism in "
+        "several spellings and host forms (run completely by every worker, gate: every class exercised) and "
+        "mutants of its items. "
         "Non-trivial = tree depth >= 2; distinct by (head, argument-shape signature, outcome class).")
 FLOOR = {"quick": 3000, "thorough": 12000}
 BUDGET = {"quick": 26, "thorough": 600}
@@ -667,11 +670,23 @@ def cases(seed, tier, shard, nshards):
             idx += 1
             if idx % nshards == shard:
                 yield {"ir": G.finish(ir, depth), "mode": "template", "head": h}
+    # (d) regression corpus: the input class behind every repaired mechanism, in several
+    # spellings and host forms; every worker runs all of it (a few seconds), so that a
+    # regression of any repair is seen whatever the seed and the number of workers
+    corpus = G.regress_corpus()
+    for key, ir in corpus:
+        yield {"ir": ir, "mode": "regress", "head": "<regress>", "regress": key}
     i = 0
     while True:
         rng = rng_for(seed, ID, shard, i)
         h = heads[(i // 2 * nshards + shard + seed) % len(heads)]
-        if i % 2 == 0:
+        if i % 8 == 7:
+            # a mutated corpus item: the same input classes in neighbouring shapes
+            key, ir = corpus[rng.randrange(len(corpus))]
+            for _ in range(rng.choice([1, 1, 2])):
+                ir, op = G.mutate_once(rng, ir)
+            yield {"ir": G.finish(ir, depth), "mode": "regress-mutant", "head": "<regress>", "regress-near": key}
+        elif i % 2 == 0:
             ir, ops = G.gen_mutant(rng, h, depth)
             yield {"ir": ir, "mode": "mutate", "head": h, "ops": ops}
         else:
@@ -698,6 +713,9 @@ def gate(tot, classes, extra, tier):
         return None
     if missing:
         return "core-macro-heads-never-compiled:" + ",".join(missing[:8])
+    missing = [k for k in G.regress_keys() if classes.get("regress:" + k, 0) < 3]
+    if missing:
+        return "regression-classes-not-exercised:" + ",".join(missing[:8])
     return None
 
 
@@ -748,6 +766,8 @@ def run_case(case):
     oc = outcome if not outcome.startswith("hy-error") else outcome
     classes = ["mode:" + case.get("mode", "?"), "head:" + head, "out:" + oc, "depth:%d" % depth]
     classes += ["feat:" + f for f in sorted(features(ir))]
+    if case.get("regress"):
+        classes.append("regress:" + case["regress"])
     res = {"ok": True, "nontrivial": depth >= 2, "classes": classes, "events": 1,
            "nt_keys": [[head, sig, oc]],
            "sample": {"form": G.show(ir)[:300], "outcome": outcome, "detail": detail[:120]}}
